@@ -203,7 +203,7 @@ Definition step (s : sys) (c : choice) : sys * list event :=
               let t' := mkTask (t_res t) rest false in
               match a with
               | ABarrierWait =>
-                  if Nat.eqb (S (s_arrived s)) (bsize s)
+                  if Nat.eqb (bsize s) (S (s_arrived s))
                   then (mkSys (map unblock (upd (s_tasks s) i t')) 0 (s_frames s) (s_helpers s),
                         [EvAct i a; EvRelease])
                   else (mkSys (upd (s_tasks s) i (mkTask (t_res t) rest true)) (S (s_arrived s))
